@@ -313,3 +313,8 @@ LEVEL_NOTE = ("Trusted: Lean kernel; axioms propext/Classical.choice/Quot.sound;
               "kernels listed in evidence are specified, not verified; the f32 log2 estimator is not the subject of a theorem — its "
               "bounds are checked exactly per sampled input (std build only; the no_std table estimator has a table theorem).")
 TECHNIQUE = "Lean 4 refinement/termination proofs (fuel + bound theorems) + differential correspondence + exact per-call enclosure checks"
+THEOREMS = ["Dashu.Props.C12." + t for t in ["gcd_spec", "gcd_ext_prim_spec", "gcd_ext_bezout", "gcd_ext_bezout_driver", "lehmer_guess_det",
+            "lehmer_step_preserves_gcd", "sqrt_rem_spec", "nth_root_spec", "cbrt_rem_spec", "ibig_root_spec", "ilog_spec", "remove_spec",
+            "log2_table_sound", "nth_root_zero_asIs_counterexample", "sqrt_rem_asIs_counterexample", "ibig_cbrt_asIs_counterexample",
+            "ilog_zero_asIs_counterexample", "gcd_ext_post_precondition_counterexample"]]
+READY = True
